@@ -217,6 +217,10 @@ struct Extractor : public RecursiveASTVisitor<Extractor> {
         return json::Array{"binding", BD->getNameAsString()};
       return json::Array{"decl", D->getNameAsString()};
     }
+    if (auto *X = dyn_cast<UnaryExprOrTypeTraitExpr>(E)) {
+      if (X->getKind() == UETT_SizeOf && !X->isValueDependent())
+        return json::Array{"sizeof", typeStr(X->getTypeOfArgument())};
+    }
     // constant folding of small integral expressions (e.g. ~0U, 0ULL)
     if ((isa<UnaryOperator>(E) || isa<BinaryOperator>(E) || isa<ExplicitCastExpr>(E) ||
          isa<UnaryExprOrTypeTraitExpr>(E)) &&
